@@ -6,6 +6,8 @@ export CARGO_NET_OFFLINE=true
 mkdir -p build evidence replays
 ( cd replay && CARGO_TARGET_DIR=../build/replay-target cargo build --offline -q 2>&1 | tail -3 ) || echo "replay crate did not build (witness search disabled)"
 verus --version >/dev/null 2>&1 || { echo "verus missing"; exit 1; }
+# differential smoke test of the stand-in contracts against the real bytes / dashmap crates
+./build/replay-target/debug/replay standins ${VERIF_SEED:-1} 300 > build/standins_selfcheck.txt 2>&1; cat build/standins_selfcheck.txt
 # warm-up: one Verus unit and one Kani harness (fills build/kani-target; about 3 minutes cold)
 python3 tools/assemble.py codec_enc >/dev/null 2>&1 && ( cd build/units && verus codec_enc.rs >/dev/null 2>&1 )
 python3 -c "
